@@ -4,6 +4,9 @@ import DtnVerif.Drv.TcpclEp
 import DtnVerif.Drv.Agent
 import DtnVerif.Drv.Sec
 import DtnVerif.Drv.Frag
+import DtnVerif.Drv.Bp
+import DtnVerif.Drv.Udpcl
+import DtnVerif.Drv.Btpu
 namespace DtnVerif
 namespace Drv
 
@@ -14,7 +17,10 @@ def handlers : List Handler := [
   tcpclEpHandler,
   agentHandler,
   secHandler,
-  fragHandler
+  fragHandler,
+  bpHandler,
+  udpclHandler,
+  btpuHandler
 ]
 
 end Drv
